@@ -744,10 +744,18 @@ impl Card {
                 None => return Err(card),
             },
             CardBody::CallNative(j) => {
-                (i <= j.args.0.len()).then(|| j.args.0.insert(i, card));
+                if i <= j.args.0.len() {
+                    j.args.0.insert(i, card);
+                } else {
+                    return Err(card);
+                }
             }
             CardBody::Call(j) => {
-                (i <= j.args.0.len()).then(|| j.args.0.insert(i, card));
+                if i <= j.args.0.len() {
+                    j.args.0.insert(i, card);
+                } else {
+                    return Err(card);
+                }
             }
             CardBody::DynamicCall(j) => {
                 if i == 0 {
